@@ -37,9 +37,11 @@ Print Assumptions base_value_range.
    window [4:size_] and the (window_start, window_end) hand-over to the child are part of the proof) - provided their members are
    plain or reserved integers, count / byte-size members, named members of the fragment, byte arrays and counted typed arrays
    (keyed or not) of the fragment, nested to any depth n, for every interpreter fuel >= 2n + 1.
+   Concrete structs whose abstract parent has NO @size member (based_nosize_struct: NEM transactions; the parent header is read with
+   the window [consumed, len(buffer))) are covered too.
    On the shipped schemas this covers 71 of the 84 Symbol structs (every transaction except the aggregates and namespace
-   registration; see fragment_examples) and 6 NEM structs.  NOT yet proved (full statement: the same for every wf schema):
-   factory decoding, fill / aligned arrays, conditionals, sizeof, sizeref, parents without @size - those constructs are covered
+   registration; see fragment_examples) and 14 of the 35 NEM structs.  NOT yet proved (full statement: the same for every wf schema):
+   factory decoding, fill / aligned arrays, conditionals, sizeof, sizeref - those constructs are covered
    by the correspondence with the generated codecs only. *)
 From Symv Require Import Cats.StructProofs Cats.StructRoundTrip Cats.StructDecide Gen.SchemaSc Gen.SchemaNc.
 Open Scope string_scope.
@@ -76,6 +78,7 @@ Example fragment_examples :
        (VStruct "MosaicId" [("namespace_id", VStruct "NamespaceId" [("name", VBytes [110; 101; 109])]); ("name", VBytes [120; 101; 109])]) = true
   /\ admb sc_schema 3 "TransferTransactionV1" (VStruct "TransferTransactionV1" [("signature", (VBytes [69; 207; 232; 97; 12; 136; 121; 72; 24; 59; 228; 55; 188; 39; 101; 102; 243; 131; 91; 5; 241; 18; 91; 115; 139; 177; 81; 201; 114; 44; 210; 198; 66; 230; 232; 100; 3; 192; 175; 237; 167; 104; 50; 63; 109; 124; 199; 44; 158; 164; 134; 8; 178; 42; 19; 225; 175; 215; 140; 249; 14; 111; 32; 219])); ("signer_public_key", (VBytes [17; 88; 171; 71; 240; 76; 225; 252; 44; 113; 224; 148; 84; 131; 159; 195; 106; 155; 72; 139; 254; 102; 210; 58; 2; 193; 14; 22; 205; 62; 251; 47])); ("version", (VInt (1))); ("network", (VInt (104))); ("type", (VInt (16724))); ("fee", (VInt (18446744073709551615))); ("deadline", (VInt (18446744073709551614))); ("recipient_address", (VBytes [126; 242; 252; 65; 173; 222; 243; 162; 55; 98; 214; 15; 133; 66; 11; 18; 99; 79; 116; 6; 145; 164; 181; 125])); ("mosaics", (VArr [(VStruct "UnresolvedMosaic" [("mosaic_id", (VInt (0))); ("amount", (VInt (1)))]); (VStruct "UnresolvedMosaic" [("mosaic_id", (VInt (1))); ("amount", (VInt (0)))]); (VStruct "UnresolvedMosaic" [("mosaic_id", (VInt (8057095391049714991))); ("amount", (VInt (1)))])])); ("message", (VBytes [110; 69; 119; 177; 92; 161; 161]))]) = true
   /\ admb sc_schema 3 "HashLockTransactionV1" (VStruct "HashLockTransactionV1" [("signature", (VBytes [199; 27; 161; 203; 25; 163; 37; 114; 219; 244; 128; 124; 23; 50; 239; 73; 125; 58; 25; 213; 233; 60; 104; 26; 182; 79; 63; 186; 226; 71; 213; 233; 134; 214; 186; 70; 148; 65; 122; 246; 58; 158; 183; 140; 139; 97; 142; 122; 97; 127; 100; 20; 31; 4; 138; 132; 217; 13; 19; 52; 113; 142; 37; 44])); ("signer_public_key", (VBytes [82; 120; 191; 247; 245; 181; 107; 173; 175; 253; 68; 38; 61; 229; 109; 227; 217; 132; 199; 77; 188; 78; 166; 148; 94; 218; 189; 49; 236; 165; 40; 42])); ("version", (VInt (1))); ("network", (VInt (152))); ("type", (VInt (16712))); ("fee", (VInt (18446744073709551614))); ("deadline", (VInt (5721180215677939408))); ("mosaic", (VStruct "UnresolvedMosaic" [("mosaic_id", (VInt (0))); ("amount", (VInt (5604217448433870570)))])); ("duration", (VInt (1))); ("hash", (VBytes [167; 144; 73; 112; 183; 167; 187; 60; 165; 225; 142; 224; 156; 234; 162; 113; 204; 127; 43; 185; 187; 12; 186; 202; 198; 99; 188; 199; 79; 90; 90; 45]))]) = true
+  /\ admb nc_schema 3 "CosignatureV1" (VStruct "CosignatureV1" [("type", (VInt (4098))); ("version", (VInt (1))); ("network", (VInt (152))); ("timestamp", (VInt (1930549411))); ("signer_public_key", (VBytes [194; 107; 48; 249; 14; 199; 221; 1; 228; 136; 117; 52; 162; 15; 11; 13; 4; 195; 110; 216; 14; 113; 224; 253; 119; 176; 118; 112; 235; 148; 11; 213])); ("signature", (VBytes [51; 95; 151; 61; 170; 216; 97; 155; 145; 255; 201; 17; 245; 124; 206; 212; 88; 187; 191; 44; 224; 55; 83; 201; 189; 250; 15; 240; 22; 157; 201; 87; 86; 116; 6; 102; 118; 207; 176; 180; 235; 137; 2; 196; 66; 105; 218; 28; 246; 186; 102; 211; 248; 182; 212; 177; 0; 169; 234; 14; 117; 90; 92; 46])); ("fee", (VInt (18446744073709551614))); ("deadline", (VInt (2891000577))); ("other_transaction_hash", (VBytes [42; 8; 231; 7; 143; 127; 137; 56; 94; 176; 148; 35; 85; 81; 130; 86; 139; 150; 232; 164; 254; 242; 58; 12; 159; 197; 175; 215; 96; 132; 55; 129])); ("multisig_account_address", (VBytes [107; 221; 10; 115; 9; 203; 74; 18; 82; 228; 218; 112; 230; 114; 15; 202; 164; 218; 30; 152; 64; 108; 24; 156; 36; 39; 158; 152; 81; 213; 129; 66; 4; 19; 111; 235; 87; 19; 193; 102]))]) = true
   /\ Nat.leb 10 (length (flat_names sc_schema)) = true /\ Nat.leb 5 (length (flat_names nc_schema)) = true
-  /\ Nat.leb 71 (length (ok_names sc_schema)) = true.
+  /\ Nat.leb 71 (length (ok_names sc_schema)) = true /\ Nat.leb 14 (length (ok_names nc_schema)) = true.
 Proof. vm_compute. repeat split; reflexivity. Qed.
